@@ -130,9 +130,13 @@ def make_pipeline(spec, module='ref.family_gen'):
                'lazy': GeneratedDataLazy, 'list': list, 'str': str, 'int': int}[data]
         if data == 'mem':
             meta['data_class'] = InMemoryData
-        body = _make_run(name, pnames, data, t.get('access', 'registry'))
+        if 'const' in t:
+            meta['ignore_return_type_mismatch'] = True
+        in_args = [slug(i['target'] if i['ref'] in ('class', 'param_class') else i['target'].split(':')[-1])
+                   for i in t.get('inputs', [])]
+        body = _make_run(name, pnames, data, t.get('access', 'registry'), in_args, 'const' in t)
         ns = {'_tag': tag, '_RUNLOG': RUNLOG, '_FAIL': FAIL, '_ret': ret, '_norm_input': norm_input,
-              '_np_of': np_of, '_df_of': df_of}
+              '_np_of': np_of, '_df_of': df_of, '_CONST': CONST, '_pv': _pv}
         exec(body, ns)
         run = ns['run']
         run.__annotations__['return'] = ret
@@ -142,10 +146,48 @@ def make_pipeline(spec, module='ref.family_gen'):
     return classes
 
 
-def _make_run(name, pnames, data, access):
+CONST = {}           # class name -> value returned by a `const` task (mocked upstream in the real-chain comparator)
+
+
+def _pv(v):
+    return v.tagvalue() if hasattr(v, 'tagvalue') else v
+
+
+def _make_run(name, pnames, data, access, in_args=(), const=False):
+    if const:
+        return f'''
+def run(self):
+    _RUNLOG.append((self.fullname, id(self)))
+    return _CONST[{name!r}]
+'''
+    if access == 'args_inputs':
+        args = ', '.join(['self'] + pnames + list(in_args))
+        getp = '{' + ', '.join(f'{p!r}: _pv({p})' for p in pnames) + '}'
+        geti = '{' + ', '.join(f'{a!r}: _norm_input({a})' for a in in_args) + '}'
+        src = f'''
+def run({args}):
+    inputs = {{}}
+    for _n, _t in self.input_tasks.items():
+        _k = _n.split('::')[-1]
+        inputs[_k] = None
+    got = {geti}
+    for _k in list(inputs):
+        inputs[_k] = got[_k.split(':')[-1]]
+    _RUNLOG.append((self.fullname, id(self)))
+    _nth = sum(1 for _r in _RUNLOG if _r[0] == self.fullname)
+    self.save_to_run_info({{'nth_run_of_task': _nth}})
+    self.logger.info('step %d of %s' % (_nth, self.fullname))
+    params = {getp}
+    f = _FAIL.get(self.slugname)
+    if f is not None:
+        f(self)
+    value = _tag(self.slugname, params, inputs)
+    return value
+'''
+        return src
     args = ', '.join(['self'] + (pnames if access == 'args' else []))
-    getp = '{' + ', '.join(f'{p!r}: {p}' for p in pnames) + '}' if access == 'args' else \
-        '{' + ', '.join(f'{p!r}: self.params[{p!r}]' for p in pnames) + '}'
+    getp = '{' + ', '.join(f'{p!r}: _pv({p})' for p in pnames) + '}' if access == 'args' else \
+        '{' + ', '.join(f'{p!r}: _pv(self.params[{p!r}])' for p in pnames) + '}'
     src = f'''
 def run({args}):
     inputs = {{}}
